@@ -231,8 +231,15 @@ func genG12(repo string, w *Out) error {
 		}
 	}
 	wes, _, _ := skel(pc, "proxyConn.writeErrorResponse")
-	w.DefBool("conn_err_rebinds_request", g12Has(wes, "set res.Request = req"))
-	w.DefBool("conn_err_rebinds_proto", g12HasPrefix(wes, "set res.ProtoMajor = ") || g12HasPrefix(wes, "set res.Proto = req.Proto, req.ProtoMajor"))
+	// the *connectError response is bound to the request being served either in writeErrorResponse itself
+	// or in maybeConnectErrorResponse(req, err)
+	mces, _, err := skel("internal/martian/proxy_connect.go", "maybeConnectErrorResponse")
+	if err != nil {
+		return err
+	}
+	viaHelper := g12Has(wes, "call maybeConnectErrorResponse(req, err)")
+	w.DefBool("conn_err_rebinds_request", g12Has(wes, "set res.Request = req") || (viaHelper && g12Has(mces, "set res.Request = req")))
+	w.DefBool("conn_err_rebinds_proto", g12HasPrefix(wes, "set res.ProtoMajor = ") || (viaHelper && g12HasPrefix(mces, "set res.ProtoMajor = ")))
 	// writeResponse: which function holds the skip test, and its shape
 	wrName := "proxyConn.writeResponse"
 	wr, pf, err := skel(pc, wrName)
@@ -261,9 +268,36 @@ func genG12(repo string, w *Out) error {
 	default:
 		return fmt.Errorf("writeResponse: the guard around traceWroteResponse is not a shape the model knows: %q", wr)
 	}
-	w.Linef("(* %s : %s *)", pc, wrName)
-	w.DefStrList("skel_writeResponse", wr)
+	// of writeResponse only the connection-close decision, the completion report and the returns are
+	// transcribed in G12.Exchange (how the body is framed and flushed belongs to C02's model)
+	var wrRel []string
+	for _, t := range wr {
+		for _, k := range []string{"res.Close", "req.Close", "p.closing()", "skipTraceWroteResponse", "traceWroteResponse", "return", "p.brw.Flush()", "err != nil", "http.MethodConnect", "StatusSwitchingProtocols"} {
+			if strings.Contains(t, k) {
+				wrRel = append(wrRel, t)
+				break
+			}
+		}
+	}
+	w.Linef("(* %s : %s (tokens about closing, tracing, returning) *)", pc, wrName)
+	w.DefStrList("skel_writeResponse", wrRel)
 	w.DefBool("trace_skip_only_when_deferred", deferred)
+	// which functions of proxy_conn.go write a response with the trace deferred
+	var defCallers []string
+	for _, d := range pf.AST.Decls {
+		fd, ok := d.(*ast.FuncDecl)
+		if !ok || fd.Body == nil {
+			continue
+		}
+		for _, t := range g12Skeleton(pf, fd.Body) {
+			if strings.HasPrefix(t, "call ") && strings.Contains(t, ".writeResponseDeferTrace(") && strings.HasSuffix(t, ", true)") {
+				defCallers = append(defCallers, fd.Name.Name)
+				break
+			}
+		}
+	}
+	sort.Strings(defCallers)
+	w.DefStrList("deferred_trace_callers", defCallers)
 	// does writeResponse clear res.Close for a 101 as it does for CONNECT + 2xx?
 	upg := false
 	for i, t := range wr {
